@@ -29,17 +29,20 @@ def check(ctx: Ctx) -> str:
     ctx.rule("R5", "attribute access and case handling: sort/unique/min/max/groupby build their key with make_attrgetter / make_multi_attrgetter and `ignore_case if not case_sensitive else None`; dictsort lowers keys unless case_sensitive")
     for fname, getter in (("do_sort", "make_multi_attrgetter"), ("sync_do_unique", "make_attrgetter"), ("_min_or_max", "make_attrgetter"), ("sync_do_groupby", "make_attrgetter"), ("do_groupby", "make_attrgetter")):
         fi = repo.func(f"filters:{fname}")
-        cs = [c for c in astq.calls(fi.node) if astq.callee(c) == getter]
+        cs = [c for c in astq.calls(fi.nnode) if astq.callee(c) == getter]
         ctx.check(bool(cs), f"{fname}:getter", f"filters:{fname}", f"uses {getter}", f"{fname} must resolve attributes through {getter} (environment.getitem based, sandbox aware)", fi.loc())
         if cs:
+            # normal form: negated tests are made positive, single-use locals inlined
             pp = [ast.unparse(k.value) for k in cs[0].keywords if k.arg == "postprocess"]
-            ctx.check(pp == ["ignore_case if not case_sensitive else None"], f"{fname}:case", f"filters:{fname}", "case post-processing", f"{fname} must compare case-insensitively exactly when case_sensitive is false (postprocess={pp})", fi.loc(cs[0]))
+            ctx.check(pp == ["None if case_sensitive else ignore_case"], f"{fname}:case", f"filters:{fname}", "case post-processing", f"{fname} must compare case-insensitively exactly when case_sensitive is false (postprocess={pp})", fi.loc(cs[0]))
     ic = repo.func("filters:ignore_case")
     s = ast.unparse(ic.node)
     ctx.check("isinstance(value, str)" in s and "value.lower()" in s and ast.unparse(astq.returns(ic.node)[-1].value) == "value", "ignore_case", "filters:ignore_case", "lower strings only", "ignore_case must lower strings and leave other values alone", ic.loc())
     ds = repo.func("filters:do_dictsort")
     s = ast.unparse(ds.node)
-    ctx.check("ifnotcase_sensitive:value=ignore_case(value)" in "".join(s.split()) and "sorted(value.items(), key=sort_func, reverse=reverse)" in s, "dictsort", "filters:do_dictsort", "dictsort key", "dictsort must sort items by key or value, lowering strings unless case_sensitive", ds.loc())
+    lowered = [a for a in ast.walk(ds.node) if isinstance(a, ast.Assign) and isinstance(a.value, ast.Call) and astq.callee(a.value) == "ignore_case" and len(a.value.args) == 1 and ast.unparse(a.targets[0]) == ast.unparse(a.value.args[0])]
+    low_ok = len(lowered) == 1 and astq.guard_atoms(ds.node, lowered[0]) == [("case_sensitive", False)]
+    ctx.check(low_ok and "sorted(value.items(), key=sort_func, reverse=reverse)" in s, "dictsort", "filters:do_dictsort", "dictsort key", "dictsort must sort items by key or value, lowering strings unless case_sensitive", ds.loc())
     ctx.check("pos = 0" in s and "pos = 1" in s and "by == 'key'" in s and "by == 'value'" in s and "raise FilterArgumentError" in s, "dictsort:by", "filters:do_dictsort", "by argument", "dictsort's `by` must select key (0) / value (1) and reject anything else", ds.loc())
     so = repo.func("filters:do_sort")
     ctx.check("sorted(value, key=key_func, reverse=reverse)" in ast.unparse(so.node), "sort:stable", "filters:do_sort", "sorted()", "sort must use sorted() (stable) with the attribute key and reverse flag", so.loc())
@@ -53,7 +56,9 @@ def check(ctx: Ctx) -> str:
     ctx.check(ast.unparse(assigns.get("start", ast.Constant(0))) == "offset + slice_number * items_per_slice" and ast.unparse(assigns.get("end", ast.Constant(0))) == "offset + (slice_number + 1) * items_per_slice", "slice:bounds", "filters:sync_do_slice", "slice bounds", "slice bounds must be offset + k * items_per_slice .. offset + (k + 1) * items_per_slice", sl.loc())
     s = ast.unparse(sl.node)
     ctx.check("if slice_number < slices_with_extra:\n            offset += 1" in s, "slice:extra", "filters:sync_do_slice", "extra item for the first slices", "the first `length % slices` slices get one extra item", sl.loc())
-    ctx.check("if fill_with is not None and slice_number >= slices_with_extra:" in s and "tmp.append(fill_with)" in s, "slice:fill", "filters:sync_do_slice", "fill rule", "slices without an extra item are filled when fill_with is given", sl.loc())
+    fills = [c for c in astq.calls(sl.node) if astq.attr_tail(c) == "append" and c.args and ast.unparse(c.args[0]) == "fill_with"]
+    fill_ok = len(fills) == 1 and sorted(astq.guard_atoms(sl.node, fills[0])) == sorted([("fill_with is None", False), ("slice_number >= slices_with_extra", True)])
+    ctx.check(fill_ok, "slice:fill", "filters:sync_do_slice", "fill rule", "slices without an extra item are filled when fill_with is given", sl.loc())
     ba = repo.func("filters:do_batch")
     s = ast.unparse(ba.node)
     ctx.check("if len(tmp) == linecount:" in s and "yield tmp" in s and "tmp = []" in s, "batch:full", "filters:do_batch", "emit full batches", "batch must emit a batch when it holds linecount items", ba.loc())
